@@ -1,19 +1,80 @@
-"""C01 — see DESIGN.md §6 C01. Shares harness/wire_main.cpp and the Lean wire model with C01–C04."""
+"""C01 — see DESIGN.md §6 C01. Shares harness/wire_main.cpp and the Lean wire model with C01–C04; additionally ties the
+InputMemoryStream / OutputMemoryStream models to the real classes (harness/c01_cursor.cpp)."""
+import random
+from vlib import core, corr
 from checks import wire_checks
 
 LEVEL = "proof"
 MANIFEST = dict(
-    text="Parsing untrusted bytes: fault-explicit Lean models of InputMemoryStream and of the modelled parsing constructors with no-fault / only-malformed_packet theorems for all byte strings; every entry point (modelled or not) is additionally driven under ASan/UBSan/LSan on seed, mutated, every-length and random buffers with an accessor sweep.",
+    text="Parsing untrusted bytes: fault-explicit Lean models of InputMemoryStream and of the modelled parsing constructors with "
+         "no-fault / only-malformed_packet theorems for all byte strings and chains of any depth; every entry point (modelled or not) "
+         "is additionally driven under ASan/UBSan/LSan on seed, mutated, every-length and random buffers with an accessor sweep.",
     note="Proof covers the Lean models of the classes listed in the evidence (modelled_classes) and the generic backbone; "
          "the tie is differential correspondence under sanitizers; unmodelled classes get the implementation-side oracle only. "
          "Trusted: Lean kernel + standard axioms, hand-written models, harness, generators, translator/gen_tags.py.",
     technique="Lean 4 proof over executable byte-level models + model/impl correspondence + spec oracle on impl output",
-    design="DESIGN.md §6 C01")
+    design="DESIGN.md §6 C01, §11.2")
+
+
+def gen_stream_ops(rng, ncases):
+    ops = []
+    for _ in range(ncases):
+        n = rng.choice([0, 1, 2, 3, 4, 8, 16, rng.randint(0, 40)])
+        ops.append("cinit " + (bytes(rng.randrange(256) for _ in range(n)).hex() or "-"))
+        for _ in range(rng.randint(1, 8)):
+            k = rng.random()
+            m = rng.choice([0, 1, 2, 4, n, n + 1, rng.randint(0, n + 3)])
+            if k < 0.4:
+                ops.append(f"cread {m}")
+            elif k < 0.6:
+                ops.append(f"cskip {m}")
+            elif k < 0.75:
+                ops.append(f"cshrink {m}")
+            elif k < 0.9:
+                ops.append(f"cpeek {rng.randint(0, n + 1)} {rng.randint(0, 4)}")
+            else:
+                ops.append("cbool")
+        n = rng.choice([0, 1, 4, 8, rng.randint(0, 24)])
+        ops.append(f"oinit {n}")
+        for _ in range(rng.randint(1, 6)):
+            k = rng.random()
+            m = rng.choice([0, 1, 2, n, n + 1, rng.randint(0, n + 2)])
+            if k < 0.5:
+                ops.append("owrite " + (bytes(rng.randrange(256) for _ in range(m)).hex() or "-"))
+            elif k < 0.7:
+                ops.append(f"oskip {m}")
+            elif k < 0.9:
+                ops.append(f"ofill {m} {rng.randrange(256)}")
+            else:
+                ops.append("obuf")
+        ops.append("obuf")
+    return ops
 
 
 def run(chk):
     wire_checks.run_property(chk, "C01", want_parse=True, want_build=False)
+    exe, err = core.build_harness("c01_cursor")
+    if exe is None:
+        chk.violation("harness does not build: " + (err or "")[-1500:], ["build-error"], nofail=True)
+        return
+    rng = random.Random(chk.seed + 17)
+    ops = gen_stream_ops(rng, 600 if chk.tier == "quick" else 20000)
+    chk.extra.setdefault("_seen", set())
+    corr.correspond(chk, "C01", exe, ops, case_start=("cinit", "oinit"),
+                    sig_of=lambda k, d, c: {"kind": k, "class": "stream"})
+    corr.finalize_cov(chk)
 
 
 def replay(path):
+    ops = [l.rstrip("\n") for l in open(path) if not l.startswith("#") and l.strip()]
+    if ops and ops[0].split(" ")[0] in ("cinit", "oinit"):
+        exe, err = core.build_harness("c01_cursor")
+        impl, mod, spec, faults = corr.evaluate("C01", exe, ops, ("cinit", "oinit"))
+        bad = corr.first_problem(ops, impl, mod, spec)
+        for o, a, b, c in zip(ops, impl, mod, spec):
+            print(o[:300]); print("  impl :", a[:600]); print("  model:", b[:600]); print("  spec :", c)
+        if bad:
+            print(f"VIOLATION property=C01 replay={path}")
+            return 1
+        return 0
     return wire_checks.replay("C01", path)
